@@ -193,3 +193,22 @@ Theorem C16_one_client_write_end_to_end :
       = http_serve handlers stall keep (snd (fold_left rx_step evs rx_init)) [].
 Proof. exact one_write_end_to_end. Qed.
 Print Assumptions C16_one_client_write_end_to_end.
+
+(* ---- the close decision: the Connection header's value, in any letter case ---- *)
+Theorem C16_close_flag_is_read_off_the_connection_header :
+  forall handlers stall buf len out close req,
+  find_request_len buf (Z.of_nat (length buf)) = Ok len -> parse_request buf len = Ok req ->
+  http_decide handlers stall buf = HRespond len out close -> close = close_flag (r_headers req).
+Proof. exact http_close_flag_is_the_headers. Qed.
+Print Assumptions C16_close_flag_is_read_off_the_connection_header.
+
+Theorem C16_close_is_recognised_in_any_letter_case :
+  forall hdrs v, lookup_header hdrs S_CONNECTION = Some v -> lower_case v = S_CLOSE -> close_flag hdrs = true.
+Proof. exact close_is_recognised_in_any_letter_case. Qed.
+Print Assumptions C16_close_is_recognised_in_any_letter_case.
+
+Theorem C16_close_spellings :
+  lower_case [67; 108; 111; 115; 101] = S_CLOSE /\ lower_case [67; 76; 79; 83; 69] = S_CLOSE /\
+  lower_case [99; 76; 111; 83; 101] = S_CLOSE.
+Proof. exact close_spellings. Qed.
+Print Assumptions C16_close_spellings.
